@@ -300,6 +300,46 @@ def _check_method(B, obj, what, case, sy, q, Q, tmpdir, rng):
                 if not os.path.exists(of) or not _close(np.loadtxt(of).reshape(np.shape(got)), got, rel=1e-5, abs_=1e-6):
                     return "saved text file differs from the returned array"
         return None
+    if what == "sij_ql_Ql":
+        csv = os.path.join(tmpdir, "sum_sij.csv") if case.endswith("csv") else None
+        for c in (0.7, float(rng.uniform(0.0, 0.9)), float(rng.uniform(-0.9, -0.05))):
+            got = obj.sij_ql_Ql(coarse_graining=cg, c=c, outputqlQl=csv, outputsij=None)
+            if not isinstance(got, list) or len(got) != T:
+                return f"returned {type(got).__name__} of length {len(got) if hasattr(got, '__len__') else '?'}; expected a list with one array per frame ({T})"
+            counts = np.zeros((T, N), dtype=int)
+            near = np.zeros((T, N), dtype=bool)
+            for s_ in range(T):
+                a = np.asarray(got[s_])
+                if a.shape != (N, 2 + Nmax):
+                    return f"frame {s_}: array of shape {a.shape}, expected {(N, 2 + Nmax)}"
+                for i in range(N):
+                    nb_ = sy["nbs"][s_][i][:Nmax]
+                    if a[i, 0] != i + 1 or a[i, 1] != len(nb_):
+                        return f"frame {s_}, particle {i}: id/cn columns {a[i, :2]}, expected {(i + 1, len(nb_))}"
+                    for jj, j in enumerate(nb_):
+                        want = (f[s_, i] * np.conj(f[s_, j])).sum().real / np.sqrt(n2[s_, i] * n2[s_, j])
+                        if abs(a[i, 2 + jj] - want) > 2e-6:      # the real code stores s_ij in float32
+                            return f"frame {s_}: s({i},{j}) = {a[i, 2 + jj]!r}, eq. (5) gives {want!r}"
+                        if abs(want) > 1 + 1e-9:
+                            return f"|s_ij| > 1: {want}"
+                        counts[s_, i] += int(want > c)
+                        near[s_, i] |= abs(want - c) < 1e-5
+                    if np.any(a[i, 2 + len(nb_):] != 0):
+                        return f"frame {s_}, particle {i}: padding beyond cn is not 0"
+            if csv:
+                import pandas as pd
+                df = pd.read_csv(csv)
+                if list(df.columns) != ["id", "sum_sij", "num_neighbors"] or len(df) != T * N:
+                    return f"csv columns {list(df.columns)}, {len(df)} rows; expected id,sum_sij,num_neighbors and {T * N} rows"
+                for s_ in range(T):
+                    for i in range(N):
+                        row = df.iloc[s_ * N + i]
+                        if int(row["id"]) != i + 1 or int(row["num_neighbors"]) != len(sy["nbs"][s_][i][:Nmax]):
+                            return f"csv row {s_ * N + i}: id/num_neighbors {int(row['id'])}/{int(row['num_neighbors'])}"
+                        if not near[s_, i] and int(row["sum_sij"]) != counts[s_, i]:
+                            return (f"c = {c!r}, frame {s_}, particle {i} (cn = {len(sy['nbs'][s_][i][:Nmax])}, Nmax = {Nmax}): csv count of s_ij > c is "
+                                    f"{int(row['sum_sij'])}, the number of bonds with s_ij > c is {counts[s_, i]}")
+        return None
     return "no replay for " + what
 
 
@@ -403,7 +443,7 @@ class QlmQlm(Unit):
     module = MOD
     qualname = f"{CLS}.qlm_Qlm"
     prop = "C09"
-    timeout = 30
+    timeout = 10
     solver_opts = {"rounds": 4}
 
     def cases(self):
@@ -471,6 +511,108 @@ class QlmQlm(Unit):
         return _replay_boo("qlm_Qlm", case, clause, model, seed)
 
 
-UNITS = [QlQl(), QlmQlm()]
+# ---- sij_ql_Ql -------------------------------------------------------------------------------------------
+
+def sij_spec(q, M, n, i, j):
+    """eq. (5) as the statement reads it: Re(q(i) . conj q(j)) / (|q(i)| |q(j)|)"""
+    up = Sum(0, M, lambda m: sv.mul(sv.as_cx(q.get((n, i, m))), sv.conj(sv.as_cx(q.get((n, j, m))))))
+    ni = sv.sqrt(Sum(0, M, lambda m: _abs2(q.get((n, i, m)))))
+    nj = sv.sqrt(Sum(0, M, lambda m: _abs2(q.get((n, j, m)))))
+    return sv.div(sv.re(up), sv.mul(ni, nj))
+
+
+class Sij(Unit):
+    """boo_3d.sij_ql_Ql(coarse_graining, c, outputqlQl, outputsij=None): per frame the array [id, cn, s_i0, .., s_i,Nmax-1] with
+    s_ij = eq. (5) for the cn_i neighbours and 0 beyond; the csv frame holds id, #{j < cn_i : s_ij > c}, cn_i for every frame"""
+    module = MOD
+    qualname = f"{CLS}.sij_ql_Ql"
+    prop = "C09"
+    timeout = 10
+    solver_opts = {"rounds": 3, "zero_body": True}
+
+    def __init__(self):
+        self._summ = {}
+
+    @property
+    def summaries(self):
+        return self._summ
+
+    def cases(self):
+        return [f"{cg}/{of}" for cg in ("local", "coarse") for of in ("nofile", "csv")]
+
+    def setup(self, ctx, case):
+        from pyvc.libext.C09 import install_open
+        install_open()
+        cg, of = case.split("/")
+        tr = Traj(ctx, 3)
+        T, N = tr.T, tr.N
+        l = _sym_l(ctx)
+        Nmax = ctx.int("Nmax")
+        ctx.assume(Nmax >= 1)
+        neighbour_file_facts(ctx, N, Nmax)
+        self._summ.clear()
+        self._summ["PyMatterSim.neighbors.read_neighbors.read_neighbors"] = read_neighbors_summary(T)
+        ctx.interp.summaries = dict(self._summ)
+        c = ctx.real("c")
+        o, small, large, M = _boo_self(ctx, l, T, N, dict(snapshots=tr.snapshots(), neighborfile=NEIGHBORFILE, Nmax=Nmax))
+        csv = "sum_sij.csv" if of == "csv" else None
+        inp = dict(T=T, N=N, l=l, M=M, Nmax=Nmax, c=c, q=large if cg == "coarse" else small, csv=csv,
+                   n=ctx.int("n"), i=ctx.int("i"), j=ctx.int("j"))
+        return [o], dict(coarse_graining=(cg == "coarse"), c=c, outputqlQl=csv, outputsij=None), inp
+
+    def clause_names(self, case):
+        names = ["returns-one-(N,2+Nmax)-array-per-frame", "column0=id", "column1=cn", "s_ij=Re(q_i.conj(q_j))/(|q_i||q_j|)", "padding=0"]
+        if case.endswith("csv"):
+            names += ["csv:columns-and-length", "csv:id", "csv:count=#{j<cn:s_ij>c}", "csv:num_neighbors=cn"]
+        else:
+            names += ["no-file-written"]
+        return names
+
+    def ensures(self, ctx, case, inp, out):
+        from pyvc.interp import Ref
+        from pyvc.pandas_model import df_content
+        res = out.value
+        T, N, M, Nmax, n, i, j, q, c = (inp[x] for x in ("T", "N", "M", "Nmax", "n", "i", "j", "q", "c"))
+        ok = isinstance(res, Ref) and res.kind == "list" and isinstance(res.content, A.SeqVal) and A.dim_eq_syntactic(res.content.length, T)
+        item = res.content.fn(n) if ok else None
+        ok = ok and isinstance(item, A.Arr) and item.ndim == 2 and A.dim_eq_syntactic(item.shape[0], N) \
+            and A.dim_eq_syntactic(item.shape[1], A.simp(sv.add(2, Nmax)))
+        yield "returns-one-(N,2+Nmax)-array-per-frame", bool(ok)
+        if not ok:
+            return
+        inr = sv.and_(sv.cmp(">=", n, 0), sv.cmp("<", n, T), sv.cmp(">=", i, 0), sv.cmp("<", i, N))
+        cn = nb(n, i, 0)
+        yield "column0=id", sv.implies(inr, sv.cmp("==", item.get((i, 0)), sv.add(i, 1)))
+        yield "column1=cn", sv.implies(inr, sv.cmp("==", item.get((i, 1)), cn))
+        got = item.get((i, A.simp(sv.add(2, j))))
+        want = sij_spec(q, M, n, i, nb(n, i, A.simp(sv.add(1, j))), )
+        yield "s_ij=Re(q_i.conj(q_j))/(|q_i||q_j|)", sv.implies(sv.and_(inr, sv.cmp(">=", j, 0), sv.cmp("<", j, cn)), sv.cmp("==", got, want))
+        yield "padding=0", sv.implies(sv.and_(inr, sv.cmp(">=", j, cn), sv.cmp("<", j, Nmax)), sv.cmp("==", got, 0))
+        writes = [e for e in out.state.trace if e[0] in ("to_csv", "np.savetxt", "np.save")]
+        if inp["csv"] is None:
+            yield "no-file-written", len(writes) == 0
+            return
+        good = len(writes) == 1 and writes[0][0] == "to_csv" and writes[0][1] == inp["csv"] and writes[0][3] == ["id", "sum_sij", "num_neighbors"]
+        yield "csv:columns-and-length", bool(good)
+        if not good:
+            return
+        cols = writes[0][2]
+        # row r of the file = frame r div N, particle r mod N: stated at row n*N + i
+        r = sv.add(sv.mul(n, N), i)
+        nrows_ok = A.dim_eq_syntactic(A.simp(cols["id"].shape[0]), A.simp(sv.mul(T, N)))
+        yield "csv:id", sv.and_(nrows_ok, sv.implies(inr, sv.cmp("==", cols["id"].get((r,)), sv.add(i, 1))))
+        # the count is taken over the returned s_ij of the cn_i bonds (whose values are fixed by the clause above)
+        cnt = Sum(0, cn, lambda jj: sv.ite(sv.cmp(">", item.get((i, A.simp(sv.add(2, jj)))), c), 1, 0))
+        yield "csv:count=#{j<cn:s_ij>c}", sv.implies(inr, sv.cmp("==", cols["sum_sij"].get((r,)), cnt)), {"solver_opts": {"rounds": 3, "ext_tail": True}}
+        yield "csv:num_neighbors=cn", sv.implies(inr, sv.cmp("==", cols["num_neighbors"].get((r,)), cn))
+
+    def raises(self, ctx, case, inp, out):
+        return None      # cn_i <= Nmax is guaranteed by read_neighbors: the ValueError branch must be unreachable
+
+    def replay(self, case, clause, model, seed):
+        return _replay_boo("sij_ql_Ql", case, clause, model, seed)
+
+
+UNITS = [QlQl(), QlmQlm(), Sij()]
 
 MANIFEST = {"text": "", "note": ""}
